@@ -372,7 +372,13 @@ def run(case, res):
         if name in ('output_to_verilog', 'output_verilog_testbench', 'print_vcd', 'print_trace',
                     'output_to_trivialgraph', 'output_to_firrtl') and not refused and wf:
             wfi += 1
-            k = wf[wfi % len(wf)] % max(1, min(40, buf.getvalue().count('\n')))
+            nl = buf.getvalue().count('\n')
+            if wf[wfi % len(wf)] % 2:
+                k = wf[wfi % len(wf)] % max(1, min(40, nl))
+            else:
+                # anywhere in the text (print() writes the line and its newline separately), so
+                # that the later sections of an export -- ROM images, always blocks -- are reached
+                k = (wf[wfi % len(wf)] * 7919) % max(1, 2 * nl)
             fw = world.FaultyWriter(k)
             try:
                 fn(fw)
